@@ -71,7 +71,8 @@ CLAIMED["C04"] = dict(
          "once-only clock condition is exact; the last-applied action wins and actions are applied in ascending priority; and for the whole run of one "
          "AT TIME control (any instant, hydraulic/rule grids, duration, priority) a step is solved at exactly the instant -- off both grids too -- with "
          "the commanded status, untouched before, kept after (induction through the presolve loop and over the steps); likewise a rule IF SYSTEM TIME "
-         ">= thr acts, for every threshold and grid, at the first multiple of the rule step that is >= thr (thr > 0). The model also "
+         ">= thr acts, for every threshold and grid, at the first multiple of the rule step that is >= thr (thr > 0); and of two AT TIME controls on one "
+         "link at the same instant the higher priority wins in either registration order (through both stable sorts and the loop). The model also "
          "proves (by evaluation) what the CURRENT code does wrong: daily clock-time controls act at 2x the threshold, 'before' clock "
          "conditions are never true, rules are evaluated at t=0 -- recorded as known findings. Tie decided inside coqc: the (time, status) "
          "trace of the real simulator equals Sched.run for every generated configuration of controls and rules (exact).",
@@ -258,7 +259,8 @@ CLAIMED["C10"] = dict(
          "whenever that index equals the paused one; that loop invariant ((ri-1)*rule_step <= prev < ri*rule_step after every solved step) is "
          "PROVED through the whole presolve loop for every configuration whose simple controls are sim-time conditions without repeat and any "
          "rules (sorted backtracks, three branches), giving restart equivalence without side condition there; for clock / repeating conditions "
-         "(whose backtracks are wrong in the code, C04 findings) it stays a per-case check; with the index "
+         "(whose backtracks are wrong in the code, C04 findings) it stays a per-case check; for the same fragment the solved times are PROVED strictly "
+         "increasing in one run and across a pause (a time is never revisited); with the index "
          "restarted at 0 (the behaviour before the fix) the model provably steps back to t = 0. Ties decided inside coqc: for generated "
          "time-driven configurations the concatenated (time, status) trace of real runs paused at 1-3 grid points, with/without pickle, "
          "continued with NEW simulator objects equals the model's uninterrupted trace, and the invariant holds at every pause. Property "
